@@ -291,9 +291,9 @@ Definition row_by_name (k : N) : string * string :=
 Definition row_by_number (k : N) : string * string :=
   match assoc k kb_table_by_number with Some r => r | None => (init_keyboard, init_syllable_editor) end.
 
-(* the number handed to TryFrom<u8> by chewing_set_KBType *)
+(* u8::try_from(kbtype).map_err(|_| ()).and_then(KB::try_from): the layout a number denotes *)
 Definition kbtype_number (kbtype : Z) : option N :=
-  kb_try_from (as_u8 kbtype).
+  if (0 <=? kbtype) && (kbtype <=? 255) then kb_try_from (Z.to_N kbtype) else None.
 
 (* chewing_set_KBType *)
 Definition set_KBType (kbtype : Z) (c : config) : Z * config :=
@@ -320,8 +320,7 @@ Definition kbtype_Strings : list string := map kb_name kb_enumeration.
 
 Inductive str_out :=
 | SOk (s : list N)     (* OK, *value = s *)
-| SError               (* ERROR *)
-| SPanic.              (* CString::new(..).expect(..) on an interior NUL: abort across extern "C" *)
+| SError.              (* ERROR *)
 
 Definition name_keyboard_type : string := "chewing.keyboard_type".
 Definition name_selection_keys : string := "chewing.selection_keys".
@@ -334,7 +333,7 @@ Definition config_get_str (name : string) (c : config) : str_out :=
   if String.eqb name name_keyboard_type then SOk (codes (kb_name (kb_compat c)))
   else if String.eqb name name_selection_keys then
     let s := map sel_key_char (sel_keys c) in
-    if existsb (N.eqb 0) s then SPanic else SOk s
+    if existsb (N.eqb 0) s then SError else SOk s      (* CString::new fails on an interior NUL *)
   else SError.
 
 Fixpoint pad_keys (n : nat) (l : list Z) : list Z :=
@@ -343,8 +342,9 @@ Fixpoint pad_keys (n : nat) (l : list Z) : list Z :=
   | S k => match l with [] => 0 :: pad_keys k [] | x :: r => x :: pad_keys k r end
   end.
 
-(* the check of the selection_keys arm: `if string.len() != 10 { return ERROR }` *)
-Definition sel_keys_acceptable (value : list N) : bool := Z.eqb (str_len value) 10.
+(* the check of the selection_keys arm:
+   `if string.len() != MAX_SELKEY || !string.is_ascii() { return ERROR }` *)
+Definition sel_keys_acceptable (value : list N) : bool := Z.eqb (str_len value) c_MAX_SELKEY && is_ascii value.
 
 (* chewing_config_set_str *)
 Definition config_set_str (name : string) (value : list N) (c : config) : Z * config :=
